@@ -9,6 +9,7 @@ import (
 	"fmt"
 	"math/big"
 	"sort"
+	"strings"
 
 	"github.com/bnb-chain/tss-lib/v2/crypto"
 	"github.com/bnb-chain/tss-lib/v2/crypto/mta"
@@ -99,6 +100,21 @@ type door struct {
 	decode    func(cv *curveCtx, X, Y *big.Int) (*crypto.ECPoint, error)
 }
 
+// usedReceiver returns an ECPoint that already holds the generator of the other curve (decoded from a payload
+// that names that curve).
+func usedReceiver(cv *curveCtx) (*crypto.ECPoint, error) {
+	o := cv.other
+	if o == nil {
+		return new(crypto.ECPoint), nil
+	}
+	n := string(o.regName)
+	p := new(crypto.ECPoint)
+	if err := p.UnmarshalJSON(jsonPoint(&n, o.rc.Gx, o.rc.Gy)); err != nil {
+		return nil, fmt.Errorf("harness: cannot prepare a used receiver: %v", err)
+	}
+	return p, nil
+}
+
 func doors() []door {
 	gx := func(cv *curveCtx) (*big.Int, *big.Int) {
 		return new(big.Int).Set(cv.rc.Gx), new(big.Int).Set(cv.rc.Gy)
@@ -175,6 +191,39 @@ func doors() []door {
 				return nil, errors.New("harness: the same encoding decoded to different coordinates")
 			}
 			return s.P, nil
+		}},
+		// the same decoders with a receiver that held a point of the OTHER curve before (encoding/json and gob
+		// decode into existing non-nil targets, e.g. when key data is loaded into a variable a second time)
+		{"UnmarshalJSON/no-curve-member/reused-receiver", "this", false, func(cv *curveCtx, X, Y *big.Int) (*crypto.ECPoint, error) {
+			p, err := usedReceiver(cv)
+			if err != nil {
+				return nil, err
+			}
+			if err := p.UnmarshalJSON(jsonPoint(nil, X, Y)); err != nil {
+				return nil, err
+			}
+			return p, nil
+		}},
+		{"UnmarshalJSON/named-curve/reused-receiver", "other", false, func(cv *curveCtx, X, Y *big.Int) (*crypto.ECPoint, error) {
+			p, err := usedReceiver(cv)
+			if err != nil {
+				return nil, err
+			}
+			n := string(cv.regName)
+			if err := p.UnmarshalJSON(jsonPoint(&n, X, Y)); err != nil {
+				return nil, err
+			}
+			return p, nil
+		}},
+		{"GobDecode/reused-receiver", "this", false, func(cv *curveCtx, X, Y *big.Int) (*crypto.ECPoint, error) {
+			p, err := usedReceiver(cv)
+			if err != nil {
+				return nil, err
+			}
+			if err := p.GobDecode(gobPoint(X, Y)); err != nil {
+				return nil, err
+			}
+			return p, nil
 		}},
 		{"GobDecode", "this", false, func(cv *curveCtx, X, Y *big.Int) (*crypto.ECPoint, error) {
 			p := new(crypto.ECPoint)
@@ -366,7 +415,7 @@ func oneDoorCase(r *core.Run, cv *curveCtx, d *door, base string, a alt) {
 	if d.bytesOnly && (X == nil || Y == nil || X.Sign() < 0 || Y.Sign() < 0) {
 		return
 	}
-	if (X == nil || Y == nil) && (d.name == "GobDecode" || d.name == "gob.Decoder/struct-member") {
+	if (X == nil || Y == nil) && (strings.HasPrefix(d.name, "GobDecode") || d.name == "gob.Decoder/struct-member") {
 		return // a nil big.Int has no gob encoding
 	}
 	caseKey := fmt.Sprintf("door/%s/%s/%s/%s", d.name, cv.name, base, a.name)
